@@ -251,6 +251,14 @@ class _Gen:
             f = Field("v", TBase(kind, self.width()), 1)
             f.parent = m
             m.items.append(f)
+        # a hot message may itself hold a nested hot enum, so that the same DOTTED path (`Tiger.Panda`)
+        # can exist complete at several scopes (docs/language.rst: "local B.Color wins")
+        if self.draw(st.integers(0, 2)) == 0:
+            free = [n for n in HOT_TYPES if n != name and n not in self.declared(m)]
+            if free:
+                e = self.hot_enum(free[self.draw(st.integers(0, len(free) - 1))])
+                e.parent = m
+                m.items.insert(0, e)
         return m
 
     def hot_def(self, parent: Any, allow_alias: bool) -> bool:
